@@ -79,8 +79,13 @@ Definition of_res (r : NumArith.res) : vcell :=
 Definition num_builtin (f : Num.profile -> list NumArith.arg -> out NumArith.res) : M vcell :=
   dom a <- pop_raw; dom argc <- as_argc a;
   dom vs <- pop_values (N.to_nat argc) [];
-  dom r <- lift (f Debug (map to_arg vs));
-  ret (of_res r).
+  (* an arm that needs libm (powf) has no model: site 99 = "not modelled", never compared *)
+  match f Debug (map to_arg vs) with
+  | Err e => if e =? NumArith.E_LIBM then panic 99 else fail e
+  | Ok r => ret (of_res r)
+  | Panic k => panic k
+  | NoFuel => fun _ => RNoFuel
+  end.
 
 (* number->string / string->number (Model/NumProc.v, package "numfmt") work on cells *)
 Fixpoint pop_cells (k : nat) (acc : list cell) : M (list cell) :=
@@ -223,7 +228,7 @@ Definition eval_cell := eval_cell_f EVAL_FUEL.
 
 (* one outcome per datum of a text, in order (the front ends' loop over
    Vm::eval_text); stops at the first read error *)
-Inductive form_result := FOk (c : cell) | FErr (e : N) (msg : text) | FPanic | FNoFuel.
+Inductive form_result := FOk (c : cell) | FErr (e : N) (msg : text) | FPanic (site : N) | FNoFuel.
 
 Fixpoint eval_text_all_f (ef : nat) (fuel : nat) (t : text) (s : vm) (acc : list form_result) {struct fuel} : list form_result * vm :=
   match fuel with
@@ -244,11 +249,11 @@ Fixpoint eval_text_all_f (ef : nat) (fuel : nat) (t : text) (s : vm) (acc : list
               end
           | ROk Yield s' => (rev (FNoFuel :: acc), s')
           | RErr e m s' => (rev (FErr e m :: acc), s')
-          | RPanic _ => (rev (FPanic :: acc), s)
+          | RPanic k => (rev (FPanic k :: acc), s)
           | RNoFuel => (rev (FNoFuel :: acc), s)
           end
       | Err e => (rev (FErr e [] :: acc), s)
-      | Panic _ => (rev (FPanic :: acc), s)
+      | Panic k => (rev (FPanic k :: acc), s)
       | NoFuel => (rev (FNoFuel :: acc), s)
       end
   end.
